@@ -462,6 +462,8 @@ def c13(tier):
     cases += mk("http", 2 if q else 20, s + 4, "default", lane="msan", mode="templates")
     for tn in names:
         cases += mk("http", 3 if q else 60, s + 5 + names.index(tn), "default", mode="shutdown-midway", template=tn, conns=9)
+    # bursts: more connections pending on the listener than one round of the event loop handles
+    cases += mk("http", 24 if q else 600, s + 20, "default", mode="burst") + mk("http", 8 if q else 200, s + 21, "one", mode="burst") + mk("http", 8 if q else 200, s + 22, "wide", mode="burst")
     # "leaves no memory behind" also when the daemon runs out of memory half-way through such an exchange: every allocation of a
     # session that consists of refused exchanges only fails once
     cres = run_cases([dict(kind="allocfail", seed=1, config="default", params=dict(script="http-refused"))])
@@ -477,7 +479,7 @@ def c13(tier):
                   "subprotocol, malformed or over-long lines, ...) must never be answered 101 and must get an HTTP error status or a close; every template "
                   "truncated at EVERY byte then FIN/RST, corrupted at EVERY position (one byte, seeded value), random multi-byte mutations; after each exchange "
                   "the connection must be released; at the end peer count, heap, descriptors, registrations are compared with the baseline and SIGTERM must "
-                  "exit cleanly under ASan/LSan; SIGTERM with connections open in every stage of an exchange (nothing sent, inside the request line, request line accepted, inside the headers, upgraded); plus a session of refused exchanges in which allocation number n fails, for every n; distinct = (class, label, status, closed) signatures",
+                  "exit cleanly under ASan/LSan; SIGTERM with connections open in every stage of an exchange (nothing sent, inside the request line, request line accepted, inside the headers, upgraded); bursts of 9..64 connections that become pending on the listener between two wake-ups of the daemon, each exchange judged like a single one; plus a session of refused exchanges in which allocation number n fails, for every n; distinct = (class, label, status, closed) signatures",
                   t0, tier, SIM_ASSUME, min_events={"exchanges": 2000, "truncation_points": 300, "corruption_points": 300})
 
 
@@ -494,6 +496,7 @@ def c12(tier):
     cases += mk("ws", 4 if q else 40, s + 2, "default", mode="echo", pings=10, big=300)
     cases += mk("ws", 40 if q else 800, s + 3, "smallbuf", mode="echo", pings=60, big=0)
     cases += mk("ws", 200 if q else 4000, s + 4, "default", mode="transparency")
+    cases += mk("ws", 40 if q else 1500, s + 5, "default", mode="close-reasons", count=60) + mk("ws", 10 if q else 300, s + 6, "smallbuf", mode="close-reasons", count=60)
     cases += mk("hostile", 250 if q else 6000, s + 5, "default", n_ops=40)
     for part in range(8):
         cases.append(dict(kind="ws", seed=s * 7919 + 500 + part, config="default", lane="msan", params=dict(mode="violations", part=part, nparts=8)))
@@ -506,7 +509,7 @@ def c12(tier):
                   "random masks and forced length encodings (pong must carry the identical payload; the payload handed to the JSON layer must equal the unmasked "
                   "payload); the listed protocol violations (unmasked, RSV 1-7, reserved opcodes, fragmented / oversized control frames incl. lengths beyond the "
                   "read buffer, invalid close codes, 1-byte and ill-formed UTF-8 close payloads) must be answered with a close frame of the matching status and "
-                  "end the connection; legal close codes get a normal close; the same JSON-RPC dialogue on raw and WebSocket transports must produce the same "
+                  "end the connection; legal close codes get a normal close; close reasons composed of well-formed and ill-formed UTF-8 pieces (up to 123 bytes, incl. a lead byte whose continuation bytes follow behind 4..16 bytes of plain text) at varying read-buffer alignments, judged by a strict UTF-8 decoder (1007 exactly for the ill-formed ones); the same JSON-RPC dialogue on raw and WebSocket transports must produce the same "
                   "messages; plus the WebSocket frame grid of the hostile workload under ASan; distinct = handshake / violation / ping-length / transparency signatures",
                   t0, tier, SIM_ASSUME, min_events={"handshakes": 300, "violations_sent": 100, "pings": 1000, "transparency_messages": 500})
 
@@ -605,7 +608,9 @@ def c11(tier):
              + mk("faulty", 250 if q else 8000, s + 1, "default", n_ops=70)
              + mk("faulty", 150 if q else 4000, s + 2, "tiny", n_ops=70)
              + mk("bystander", 60 if q else 1500, s + 3, "default") + mk("bystander", 40 if q else 1000, s + 4, "smallbuf")
-             + mk("bystander", 20 if q else 500, s + 5, "odd"))
+             + mk("bystander", 20 if q else 500, s + 5, "odd")
+             # "keeps accepting and serving connections": bursts of pending connections (some already gone again) on one listener
+             + mk("acceptburst", 30 if q else 800, s + 6, "default") + mk("acceptburst", 10 if q else 300, s + 7, "one") + mk("acceptburst", 10 if q else 300, s + 8, "wide"))
     res = run_cases(cases)
     return report("C11", "fault_enumeration", res,
                   "random bus histories in which a growing subset of peers is made faulty at seeded moments: stops reading (write budget 0/1/5/70 bytes, 1-byte "
@@ -615,7 +620,7 @@ def c11(tier):
                   "their effect is read back through a healthy connection and every healthy replica must agree with it); the 256-byte write buffer "
                   "configuration makes buffers overflow within a few notifications; 'bystander' histories: a healthy subscriber with parked output reads "
                   "again directly after another connection ended inside its own readiness event (garbage, over-long length prefix, end of stream, RST) or "
-                  "another peer's routed request ran into its deadline, nothing else becoming readable in between - its byte stream must then be complete; "
+                  "another peer's routed request ran into its deadline, nothing else becoming readable in between - its byte stream must then be complete; 'acceptburst' histories: 9..40 connections become pending on one listener between two wake-ups, some reset or closed again before the daemon looks, all others must be accepted and served; "
                   "distinct = (fault kind, transport, role) signatures",
                   t0, tier, SIM_ASSUME, min_events={"faults": 1000, "accept_faults": 100, "replica_checks_nonempty": 10000, "frames_refused": 100,
                                                     "bystander_rounds": 500})
